@@ -259,6 +259,16 @@ func c13Values(args []string) error {
 					line.Ok = true
 					pt := p.Native().In(loc)
 					line.Parsed = adt{pt.Year(), int(pt.Month()), pt.Day(), pt.Hour(), pt.Minute(), pt.Second(), pt.Nanosecond() / 1000}
+					// '=' agrees with the canonical renderings: the same instant written with another offset, an instant
+					// that differs below the rendered precision, the value itself, and one a microsecond later
+					line.EqCanon = true
+					for _, other := range []time.Time{t.UTC(), t.In(time.FixedZone("x", 5*3600+1800)), t.Add(100 * time.Nanosecond), t, t.Add(time.Microsecond), p.Native()} {
+						y := types.NewXDateTime(other)
+						eq, isBool := operators.Equal(e, x, y).(*types.XBoolean)
+						if !isBool || eq.Native() != (x.Render() == y.Render()) {
+							line.EqCanon = false
+						}
+					}
 				})
 				emit(line)
 			}
